@@ -1,6 +1,7 @@
 // Operator drivers shared by C11 (run under ThreadSanitizer + Archer) and C12 (reproducibility):
 // execute one operator on a generated problem with a given thread count and return its output vector(s).
 #pragma once
+#include "LinearAlgebra/symmetricTridiagonalSolver.h"
 #include "engine.h"
 #include "problem.h"
 #include "transfer_common.h"
@@ -14,9 +15,9 @@
 #include "LinearAlgebra/vector_operations.h"
 
 static const char* kOpNames11[] = {"residual_give", "residual_take", "smoother_give", "smoother_take", "exsmoother_give", "exsmoother_take",
-                                   "directsolver_give", "directsolver_take", "levelcache", "transfers", "vector_kernels", "solve"};
+                                   "directsolver_give", "directsolver_take", "levelcache", "transfers", "vector_kernels", "solve", "line_solvers"};
 enum { OP11_RES_GIVE = 0, OP11_RES_TAKE, OP11_SM_GIVE, OP11_SM_TAKE, OP11_EXSM_GIVE, OP11_EXSM_TAKE, OP11_DS_GIVE, OP11_DS_TAKE,
-       OP11_LEVELCACHE, OP11_TRANSFERS, OP11_KERNELS, OP11_SOLVE, OP11_COUNT };
+       OP11_LEVELCACHE, OP11_TRANSFERS, OP11_KERNELS, OP11_SOLVE, OP11_LINESOLVERS, OP11_COUNT };
 
 // Runs the operator; returns the concatenated outputs (a deterministic function of the case for a race-free code).
 inline std::vector<double> runOp11(const KV& c, int threads)
@@ -32,6 +33,31 @@ inline std::vector<double> runOp11(const KV& c, int threads)
         s->solve();
         append(s->solution());
         out.push_back((double)s->numberOfIterations());
+        return out;
+    }
+    if (op == OP11_LINESOLVERS) {
+        // the line solvers called from serial code with `threads` threads available, below and above the size at which
+        // this code base switches kernels to OpenMP: a cyclic and a non-cyclic strictly diagonally dominant system
+        const int n = (int)c.getI("kernel_n");
+        omp_set_num_threads(threads);
+        for (int cyc = 0; cyc < 2; cyc++) {
+            Rnd r(c.getU("x_seed") + cyc);
+            SymmetricTridiagonalSolver<double> S(n);
+            S.is_cyclic(cyc == 1);
+            for (int i = 0; i + 1 < n; i++)
+                S.sub_diagonal(i) = r.uni(-1.0, 1.0);
+            if (cyc)
+                S.cyclic_corner_element() = r.uni(-1.0, 1.0);
+            for (int i = 0; i < n; i++)
+                S.main_diagonal(i) = 2.5 + r.uni(0.0, 1.0);
+            std::vector<double> x(n), t1(n), t2(n);
+            for (int k = 0; k < 2; k++) {
+                for (int i = 0; i < n; i++)
+                    x[i] = r.normal();
+                S.solveInPlace(x.data(), t1.data(), cyc ? t2.data() : nullptr);
+                out.insert(out.end(), x.begin(), x.end());
+            }
+        }
         return out;
     }
     if (op == OP11_KERNELS) {
@@ -174,7 +200,7 @@ inline std::vector<double> runOp11(const KV& c, int threads)
 inline KV genCase11(bool forTsan)
 {
     KV c;
-    const int op = rweighted({4, 2, 4, 4, 4, 4, 3, 3, 2, 2, 2, 3});
+    const int op = rweighted({4, 2, 4, 4, 4, 4, 3, 3, 2, 2, 2, 3, 1});
     c.putI("op", op);
     c.putU("x_seed", rseed());
     if (op == OP11_SOLVE) {
@@ -210,6 +236,10 @@ inline KV genCase11(bool forTsan)
     }
     if (op == OP11_KERNELS) {
         c.putI("kernel_n", rpick({0, 1, 7, 9999, 10000, 10001, 10001, 30000, 30000, 65536}));
+        return c;
+    }
+    if (op == OP11_LINESOLVERS) {
+        c.putI("kernel_n", rpick({2, 3, 64, 10000, 10001, 10001, 30000}));
         return c;
     }
     ProblemSpec p;
